@@ -261,27 +261,55 @@ class Spec(EvalableModel):
                     global_fanout *= p.get_fanout()
 
             orig: Component = self.arch.find(leaf.name)
+
+            def cost_input(key, current):
+                # area, leak_power, energy and throughput are inputs as well as outputs.
+                # If the current value is what an earlier call wrote, start again from
+                # that call's input so that scales and n_parallel_instances are applied
+                # exactly once no matter how often the costs are recalculated.
+                previous = orig._cost_inputs.get(key)
+                if previous is not None and previous[1] == current:
+                    return previous[0]
+                return current
+
             c = leaf
             prev_log = list(c.component_modeling_log)
             c.component_modeling_log.clear()
             if area:
+                area_in = leaf.area = cost_input("area", leaf.area)
                 c = c.calculate_area(models)
                 orig.area = c.area
                 orig.total_area = c.area * global_fanout
+                orig._cost_inputs["area"] = (area_in, c.area)
             if energy:
+                inputs = {}
+                for a in c.actions:
+                    inputs[a.name] = a.energy = cost_input(("energy", a.name), a.energy)
                 c = c.calculate_action_energy(models)
                 for a in c.actions:
                     orig_action = orig.actions[a.name]
                     orig_action.energy = a.energy
+                    orig._cost_inputs[("energy", a.name)] = (inputs[a.name], a.energy)
             if throughput:
+                inputs = {}
+                for a in c.actions:
+                    inputs[a.name] = a.throughput = cost_input(
+                        ("throughput", a.name), a.throughput
+                    )
                 c = c.calculate_action_throughput(models)
                 for a in c.actions:
                     orig_action = orig.actions[a.name]
                     orig_action.throughput = a.throughput
+                    orig._cost_inputs[("throughput", a.name)] = (
+                        inputs[a.name],
+                        a.throughput,
+                    )
             if leak:
+                leak_in = c.leak_power = cost_input("leak_power", c.leak_power)
                 c = c.calculate_leak_power(models)
                 orig.leak_power = c.leak_power
                 orig.total_leak_power = c.leak_power * global_fanout
+                orig._cost_inputs["leak_power"] = (leak_in, c.leak_power)
             orig.component_modeling_log = prev_log + c.component_modeling_log
             orig.component_model = c.component_model
 
